@@ -15,8 +15,8 @@ import c11_gen as G
 
 META = {
     "category": "proof",
-    "text": "Coq theorems (Cursor/Props_C11.v) over executable models of sst's MergingCursor (array heap, Forward/Reverse comparator, direction switch), ConcatenatingCursor (binary search over last keys, walk across exhausted children), PruningCursor (skip key, the three nested loops of prev), BoundsCursor (before/positioned/after machine, all nine bound combinations incl. empty and inverted) and LazyCursor: each, over ARBITRARY child cursors that behave as reference cursors, gives for every finite program of seek_to_first/seek_to_last/seek/prev/next the same key_value() observations as sst::reference::ReferenceCursor over the specified list, never fails and never runs out of loop fuel; the theorems compose to arbitrary nestings. The models are tied to the code by 3-way differential runs (Rust vs extracted model vs an independent Python rendering of the specification) on structure-aware generated families (shared keys at several timestamps, tombstone-only and empty tables, a key's versions split across adjacent tables, reversals everywhere).",
-    "note": "Trusted: Coq kernel; extraction via ExtrOcamlBasic + ocaml/cursor driver; harness c11; std's binary_search and sort inside ReferenceTable (stated, not transcribed). Storage errors of child cursors (the `?` after each child call) are not modelled: children are total state machines. LazyCursor's SstCursor is represented by the table cursor of its entries (C10 relates an SstCursor to its entries). Merging requires the children's (key,timestamp) pairs to be pairwise distinct; concatenation requires the concatenated entries to be strictly sorted.",
+    "text": "Coq theorems (Cursor/Props_C11.v, all closed under the global context) over executable models of sst's MergingCursor (array heap, Forward/Reverse comparator, direction switch), ConcatenatingCursor (binary search over last keys, walk across exhausted children), PruningCursor (skip key, the three nested loops of prev), BoundsCursor (before/positioned/after machine, all nine bound combinations incl. empty and inverted) and LazyCursor: each, over ARBITRARY child cursors that behave as reference cursors, gives for every finite program of seek_to_first/seek_to_last/seek/prev/next the same key_value() observations as sst::reference::ReferenceCursor over the specified list, never fails and never runs out of loop fuel; the theorems compose to arbitrary nestings (C11_compose), in particular the cursor over a compaction's inputs / the garbage collector's cursor that lsmtk builds (C11_compaction_input, C11_compaction_walk_reads_sorted_union, C11_gc_input; the range-scan nestings are C03's). Storage errors: a second set of models (Cursor/F*.v) transcribes every `?` of the five files (where each combinator returns on a child's Err and what it leaves behind); proved for every nesting, every program and every failure schedule of every leaf: every Err is reported and is exactly one failure consumed (C11_errors_reported), everything returned before the first Err equals the reference (C11_errors_before_first), and after an Err every successful seek/seek_to_first/seek_to_last and everything after it up to the next Err equals the reference again (C11_absolute_calls_recover_after_error); next/prev between an Err and the next successful absolute call are unspecified (C11_failed_call_is_not_a_noop; counted in the evidence as dirty_relative_observations, informational). The models are tied to the code by differential runs (Rust vs extracted model vs an independent Python rendering of the specification): without errors on structure-aware generated families, with errors using a cursor that returns Err on schedule at every leaf (compared at EVERY position, incl. after errors), and on lsmtk's compaction/GC nesting built with the same constructor calls over real SstCursors.",
+    "note": "Trusted: Coq kernel; extraction via ExtrOcamlBasic + ocaml/cursor drivers; harness c11 / c11f (FailingCursor: a ReferenceCursor whose n-th call returns Err without moving it; LazyCursor opens failing on schedule); std's binary_search and sort inside ReferenceTable (stated, not transcribed). A failed call is modelled as leaving the leaf where it was (the theorems allow any `junk` that keeps it a cursor). LazyCursor's SstCursor is represented by the table cursor of its entries (C10 relates an SstCursor to its entries); the harness cannot make a real SstCursor return Err, only the open. Merging requires the children's (key,timestamp) pairs to be pairwise distinct; concatenation requires the concatenated entries to be strictly sorted. PruningCursor::prev's logic error is an ordinary Err in the Rust and a sticky failure flag in the model: it only occurs in dirty states, where the model then stops making claims (reported as model_unhealthy in the evidence).",
 }
 
 PROPS = "theories/Cursor/Props_C11.v"
@@ -353,17 +353,15 @@ def run(chk):
     prop_bad, corr_bad, model_spec_bad = tally.prop_bad, tally.corr_bad, tally.model_spec_bad
     prop_bad = prop_bad + ft["prop_bad"]
     corr_bad = corr_bad + ft["corr_bad"]
-    if ft["known"]:
-        ex = ft["known_example"]
-        chk.known("dirty-relative", "after a child returned Err, next/prev before the next successful seek*/seek_to_first/seek_to_last are unspecified (e.g. `%s` -> `%s`)" % (ex["case"][:160], ex["impl_out"][:120]))
-        for _ in range(ft["known"] - 1):
-            chk.known("dirty-relative", "")
     chk.coverage.update({
         "evaluations": tally.n + ft["n"], "distinct_nontrivial": len(tally.distinct),
         "storage_errors": {"cases": ft["n"], "cases_with_err": ft["with_err"], "err_returns": ft["errs"],
                            "cases_continued_after_err": ft["continued_after_err"],
                            "absolute_calls_checked_after_an_err": ft["recovered"],
-                           "cases_in_known_class_dirty_relative": ft["known"], "model_unhealthy": ft["unhealthy"],
+                           "dirty_relative_observations": ft["known"],
+                           "dirty_relative_sample": (ft["known_example"] or {}).get("case"),
+                           "dirty_relative_sample_output": (ft["known_example"] or {}).get("impl_out"),
+                           "model_unhealthy": ft["unhealthy"],
                            "lsmtk_nestings_over_real_SstCursors": ft.get("nestings"),
                            "rule": "the same generator with 2/3 of the table leaves replaced by a cursor over the same table whose calls number n1,n2,.. (1-3 numbers in 1..4/8/16/30) return Err without moving it, and 1/2 of the lazy leaves by one whose opens fail on schedule; the run continues after an Err; compared: implementation vs fallible model at EVERY position, and both vs the specification of a run with errors (everything before the first Err, every successful seek*/first/last after an Err and everything after it); plus every single failure point (call 1..9/14 of each leaf) on %d small families x all programs up to length %d" % (len(failing_families()), 3 if chk.tier == "quick" else 4)},
         "rule": "cursor expressions (T table / L lazy-over-real-SST / M merging / C concat / B bounds / P pruning, nested to depth <= 3, top kind cycled over M,C,B,P,L,any) over a strictly sorted entry family from one SplitMix64 seed (key pools with shared prefixes, empty key, 0x00/0xff bytes; 1-5 versions per key from timestamps 0..9, u64::MAX-1, u64::MAX; 1/4 tombstones, 1/12 tombstone-only, 1/10 empty family; children of C are contiguous segments incl. empty ones and cuts inside a key's versions; children of M are scattered subsets incl. by timestamp parity and tombstones gathered in one table) and programs of 1-40 calls (five mixes: forward, backward, zig-zag with a reversal at almost every step, uniform; seek keys drawn from the entries, the pool, pool key + 0x00/0x01/0xff, empty key)"
@@ -386,6 +384,7 @@ def run(chk):
         ],
     })
     chk.assumptions = [
+        "behaviour after a child error is not part of C11; proved and compared anyway: errors reported, prefix before the first Err exact, absolute calls recover",
         "storage errors of child cursors (I/O, corruption: the `?` after each child call) are outside the model; children are total state machines",
         "merging: the children's (key, timestamp) pairs are pairwise distinct; concatenation: the concatenated entries are strictly sorted by KeyRef",
         "LazyCursor: the SstCursor it opens behaves as a reference cursor over the SST's entries (property C10)",
